@@ -146,7 +146,15 @@ _ELECTIONS = {}
 def _election(eseed, district=False):
     key = (eseed, district)
     if key not in _ELECTIONS:
-        pre, cur = synth.make_election(n=48, states=STATES, seed=eseed, frac_reporting=0.6, district=district)
+        # district=False is the election of the C12 worlds: large enough that every state / classification holds at
+        # least ten gaussian calibration units (30 % of the reporting units), so that the per-group gaussian models - and
+        # whatever seeds their resampling - are really used (seeded change C12_C); the C13 district election stays small
+        n, frac = (48, 0.6) if district else (132, 0.85)
+        pre, cur = synth.make_election(n=n, states=STATES, seed=eseed, frac_reporting=frac, district=district)
+        # degenerate baselines (a precinct where one party, or nobody, had votes last time): how such a unit is
+        # categorised must not depend on which estimands a request names (seeded change C13_C)
+        for i, col in ((5, "baseline_dem"), (11, "baseline_gop"), (17, "baseline_dem"), (22, "baseline_gop"), (29, "baseline_turnout")):
+            pre.loc[i, col] = 0
         pre = synth.with_margin_features(pre)
         if district:
             pre["geographic_unit_type"] = "precinct-district"
@@ -196,7 +204,8 @@ def run_history(w, hist):
                 res = call_estimates(client, pre, cur, ev["est"], concrete_args(w, ev["est"], ev["arg"]))
                 tok, tabs = result_digest(res)
             elif ev["op"] == "summary":
-                s = WORLD_TEMPLATES[w["template"]]["summary"][ev["arg"]]
+                # the summary has its own argument tuple, independent of the arguments of the run it follows
+                s = WORLD_TEMPLATES[w["template"]]["summary"][ev.get("sarg", ev["arg"])]
                 if s["alphas"] == OMIT:
                     df = client.get_national_summary_votes_estimates(dict(s["weights"]), s["base"])
                 else:
@@ -207,7 +216,7 @@ def run_history(w, hist):
         except Exception as e:  # noqa: BLE001  (an exception is an observation too: equal arguments, equal outcome)
             tok = "raised:" + hashlib.sha256((type(e).__name__ + ":" + str(e)[:300]).encode()).hexdigest()[:10]
             tabs = {"exception": type(e).__name__ + ": " + str(e)[:200]}
-        out.append({"op": ev["op"], "est": ev["est"], "arg": ev["arg"], "fresh": bool(ev["fresh"]), "tok": tok, "tabs": tabs})
+        out.append({"op": ev["op"], "est": ev["est"], "arg": ev["arg"], "sarg": ev.get("sarg", "-"), "fresh": bool(ev["fresh"]), "tok": tok, "tabs": tabs})
     return out
 
 
@@ -266,11 +275,11 @@ def history_traces(results, worlds):
             if wid not in seen_w:
                 seen_w.add(wid)
                 pcount[wid] += 1
-                per[wid].append({"op": "process", "est": "-", "arg": "-", "fresh": True, "tok": "-", "hash": str(r["hash"]),
+                per[wid].append({"op": "process", "est": "-", "arg": "-", "sarg": "-", "fresh": True, "tok": "-", "hash": str(r["hash"]),
                                  "label": r["label"], "p": pcount[wid]})
             first = True
             for o in run["obs"]:
-                per[wid].append({"op": o["op"], "est": o["est"], "arg": o["arg"], "fresh": bool(o["fresh"] or (first and o["op"] == "est")),
+                per[wid].append({"op": o["op"], "est": o["est"], "arg": o["arg"], "sarg": o.get("sarg", "-"), "fresh": bool(o["fresh"] or (first and o["op"] == "est")),
                                  "tok": o["tok"], "hash": str(r["hash"]), "label": r["label"], "p": pcount[wid]})
                 first = False
     return [{"wid": wid, "events": evs} for wid, evs in per.items() if evs]
